@@ -232,6 +232,25 @@ theorem abs_clearWhiteout {p : Str} (hp : Canon p) :
   refine SimM.bind_eq (ops.exists_ hwo.1) fun ex => ?_
   exact SimM.ite (fun _ => ops.removeFile hwo.1) (fun _ => SimM.pure rfl)
 
+/-- `clear_whiteout` of `create_dir` (fix of O11): related removals fail with the same kind, so
+both sides swallow `FileNotFound` together -/
+theorem abs_clearWhiteoutT {p : Str} (hp : Canon p) :
+    SimM R PR (· = ·) (clearWhiteoutT l1 p) (clearWhiteoutT l2 p) := by
+  unfold clearWhiteoutT
+  refine SimM.bind (SimM.ret (abs_whiteoutPath ops hL hne hp)) fun wo1 wo2 hwo => ?_
+  refine SimM.bind_eq (ops.exists_ hwo.1) fun ex => ?_
+  refine SimM.ite (fun _ => ?_) (fun _ => SimM.pure rfl)
+  intro w1 w2 hr
+  dsimp only
+  rcases e1 : wo1.removeFile w1 with ⟨r1, w1'⟩
+  rcases e2 : wo2.removeFile w2 with ⟨r2, w2'⟩
+  obtain ⟨hres, hr'⟩ := (ops.removeFile hwo.1).run hr e1 e2
+  cases hres with
+  | ok hq => exact ⟨.ok hq, hr'⟩
+  | panic => exact ⟨.panic, hr'⟩
+  | @err k p1 p2 hp =>
+    cases k <;> first | exact ⟨.ok rfl, hr'⟩ | exact ⟨.err hp, hr'⟩
+
 theorem abs_addWhiteout (hh : SimHandles R PR H) {p : Str} (hp : Canon p) :
     SimM R PR (· = ·) (addWhiteout l1 p) (addWhiteout l2 p) := by
   unfold addWhiteout
@@ -281,8 +300,25 @@ theorem abs_createDir {p : Str} (hp : Canon p) (hpn : p ≠ []) :
   · refine SimM.bind (abs_readPath ops hL hne hp) fun q1 q2 hq => ?_
     exact SimM.bind_eq (ops.metadata hq) fun md => SimM.failK _
   · refine SimM.bind (SimM.ret (abs_writePath ops hL hne hp)) fun wp1 wp2 hwp => ?_
-    refine SimM.bind_eq (ops.createDir hwp.1 (hwp.2 hpn)) fun _ => ?_
-    exact abs_clearWhiteout ops hL hne hp
+    -- related answers of the write layers select the same branch
+    intro w1 w2 hr
+    dsimp only
+    rcases e1 : wp1.createDir w1 with ⟨r1, w1'⟩
+    rcases e2 : wp2.createDir w2 with ⟨r2, w2'⟩
+    obtain ⟨hres, hr'⟩ := (ops.createDir hwp.1 (hwp.2 hpn)).run hr e1 e2
+    cases hres with
+    | @ok a b hq => cases a; cases b; exact abs_clearWhiteoutT ops hL hne hp w1' w2' hr'
+    | panic => exact ⟨.panic, hr'⟩
+    | @err k p1 p2 hpp =>
+      cases k <;> try exact ⟨.err hpp, hr'⟩
+      dsimp only
+      rcases e3 : clearWhiteoutT l1 p w1' with ⟨r3, w1''⟩
+      rcases e4 : clearWhiteoutT l2 p w2' with ⟨r4, w2''⟩
+      obtain ⟨hres2, hr''⟩ := (abs_clearWhiteoutT ops hL hne hp).run hr' e3 e4
+      cases hres2 with
+      | @ok a b hq => cases a; cases b; exact ⟨.err hpp, hr''⟩
+      | panic => exact ⟨.panic, hr''⟩
+      | @err k2 p3 p4 hp2 => exact ⟨.err hp2, hr''⟩
 
 theorem abs_refuseDir {p : Str} (hp : Canon p) :
     SimM R PR (· = ·) (refuseDir l1 p) (refuseDir l2 p) := by
